@@ -824,6 +824,7 @@ def _stream_oracles(ctx, hints):
                 fails.append(Failure(name, args, w, _c10_tags("encap" if name == "ch7_encap" else "decap", overflow,
                                                              traffic="normal" if all(not l for _, l in seq) else "llp")))
     ctx.count("oracle_evaluations", n)
+    fails.sort(key=lambda f: bool(f.tags.get("llp_overflow")))     # failures outside K3 first
     return fails
 
 # =============================================================================== C09 accept / reject
